@@ -61,7 +61,9 @@ theorem remove_eq (t : TableIDs) (id : Nat) : tableIDs_Remove t id = t.remove id
     simp only [Option.getD_some, Option.isSome_some, Bool.not_true, Bool.false_eq_true, if_false]
     by_cases hne : index = t.tables.length - 1
     · simp [hne]
-    · have hne' : (index != t.tables.length - 1) = true := by simpa using hne
-      simp only [hne', if_true]
+    · -- both orientations of the comparison (`index != last` / `last != index`)
+      have hne1 : (index != t.tables.length - 1) = true := by simpa using hne
+      have hne2 : (t.tables.length - 1 != index) = true := by simpa using Ne.symm hne
+      simp only [hne1, hne2, if_true]
 
 end Ark.GenBridge.Book
